@@ -126,3 +126,55 @@ Example C11_premises_hold :
     = [Some ["g"]; Some ["g"]; Some ["f"; "g"]; Some ["f"; "g"]] /\
   ctor_accepts ts "a.C" "g" = Ok true /\ ctor_accepts ts "a.C" "nope" = Ok false.
 Proof. vm_compute. repeat split. Qed.
+
+(* ================================================================================================================
+   Bridge (coq/Bridge.v, BridgeProofs.v): the feature half of the flattened view `flatten ts : schema` handed to the
+   heap-level models.  For a registered type n, sch_feats (flatten ts) n is Type.all_features field by field (python
+   name, document name, range, element type, bool(multipleReferencesAllowed)), in that order; hence every entry is an own
+   feature of n or of an ancestor, every such own feature is represented (same name and range, equal up to
+   Feature.__eq__), one entry per python name; looking a name up in it is Type.get_feature. *)
+From Cassis Require Import Schema Bridge BridgeProofs.
+
+Theorem C11_flatten_features : forall ts n t, WFh ts -> WFf ts -> find_ty ts n = Some t ->
+  sch_feats (flatten ts) n = map fdecl_of (all_features t) /\
+  (forall fd, In fd (sch_feats (flatten ts) n) ->
+     exists f a ta, fd = fdecl_of f /\ below ts a n /\ find_ty ts a = Some ta /\ In f (t_own ta)) /\
+  (forall a ta g, below ts a n -> find_ty ts a = Some ta -> In g (t_own ta) ->
+     exists f, In (fdecl_of f) (sch_feats (flatten ts) n) /\ feat_eqb f g = true /\
+               fd_name (fdecl_of f) = f_name g /\ fd_range (fdecl_of f) = f_range g) /\
+  NoDup (map fd_name (sch_feats (flatten ts) n)) /\
+  (forall x, fd_find (sch_feats (flatten ts) n) x = option_map fdecl_of (get_feature t x)).
+Proof. exact flatten_features. Qed.
+Print Assumptions C11_flatten_features.
+
+Theorem C11_flatten_features_reachable : forall ops n t, let ts := final_ts ops init_ts in find_ty ts n = Some t ->
+  sch_feats (flatten ts) n = map fdecl_of (all_features t) /\
+  (forall fd, In fd (sch_feats (flatten ts) n) ->
+     exists f a ta, fd = fdecl_of f /\ below ts a n /\ find_ty ts a = Some ta /\ In f (t_own ta)) /\
+  (forall a ta g, below ts a n -> find_ty ts a = Some ta -> In g (t_own ta) ->
+     exists f, In (fdecl_of f) (sch_feats (flatten ts) n) /\ feat_eqb f g = true /\
+               fd_name (fdecl_of f) = f_name g /\ fd_range (fdecl_of f) = f_range g) /\
+  NoDup (map fd_name (sch_feats (flatten ts) n)) /\
+  (forall x, fd_find (sch_feats (flatten ts) n) x = option_map fdecl_of (get_feature t x)).
+Proof. exact flatten_features_reachable. Qed.
+Print Assumptions C11_flatten_features_reachable.
+
+(* the names: in documents the name given to create_feature, in Python self_ / type_ for the reserved words *)
+Theorem C11_flatten_feature_names : forall ts dom name range elem multi desc f,
+  make_feature ts dom name range elem multi desc = Ok f ->
+  fd_xname (fdecl_of f) = name /\
+  fd_name (fdecl_of f) = (if reserved_name name then (name ++ "_")%string else name) /\
+  fd_multi (fdecl_of f) = match multi with Some true => true | _ => false end.
+Proof. exact make_feature_names. Qed.
+Print Assumptions C11_flatten_feature_names.
+
+Example C11_flatten_computes :
+  let ops := [OCreateType "a.A" "uima.tcas.Annotation" None; OCreateFeature "a.A" "self" "uima.cas.Integer" None None None;
+              OCreateType "a.B" "a.A" None; OCreateFeature "a.B" "g" "uima.cas.FSArray" (Some "a.A") (Some true) None;
+              OCreateFeature "a.A" "h" "uima.cas.String" None None None] in
+  let ts := final_ts ops init_ts in
+  sch_feats (flatten ts) "a.B" =
+    [mkFd "g" "g" "uima.cas.FSArray" (Some "a.A") true; mkFd "self_" "self" "uima.cas.Integer" None false;
+     mkFd "begin" "begin" "uima.cas.Integer" None false; mkFd "end" "end" "uima.cas.Integer" None false;
+     mkFd "sofa" "sofa" "uima.cas.Sofa" None false; mkFd "h" "h" "uima.cas.String" None false].
+Proof. vm_compute. reflexivity. Qed.
